@@ -23,6 +23,8 @@ Ops == {[op |-> "DelegRoundTrip", type |-> t, ds |-> ds] : t \in {"CAPACITY", "L
        \* the duplicate arrives in a second call, in the same call, or after other delegations in the same call
        \cup {[op |-> "AddDuplicateId", type |-> t, how |-> h] : t \in {"CAPACITY", "LABEL"}, h \in {"two_calls", "one_call", "one_call_third"}}
        \cup {[op |-> "PoolsRoundTrip", type |-> t, fam |-> f] : t \in {"CAPACITY", "LABEL"}, f \in Families}
+       \cup {[op |-> "PoolsViaGraph", type |-> t, fam |-> f, own |-> SetToSeq(w)] : t \in {"CAPACITY", "LABEL"}, f \in Families,
+                                                                                w \in {{}, {"n1"}, {"n2"}, {"x9"}, {"n1", "x9"}}}
 
 Init == st = "none" /\ lastop = [op |-> "Init"] /\ path = <<>> /\ chg = FALSE
 Next == \E o \in Ops : st' = st /\ lastop' = o /\ chg' = FALSE /\ path' = path
